@@ -1127,6 +1127,71 @@ theorem mixF_is_the_source (name birth death ratio : Dbl) :
   unfold mixF Fn.evalF Generated.srcIndividual
   simp only [List.find?, AExp.evalF, litF, if_true]
 
+/-! ### The float64 `Minimum()` that selects the estimated dates -/
+
+/-- the fold of `minimumRangeF`: the result is the accumulator or an element of the list, and no
+    element seen (nor the accumulator) has a strictly smaller float64 start -/
+theorem minimumF_fold (ds : List Gedcom.DateRange) (d : Gedcom.DateRange) :
+    let m := ds.foldl (fun m x =>
+      if F64.lt (years x.start.toDate) (years m.start.toDate) then x else m) d
+    (m = d ∨ m ∈ ds) ∧
+    ¬ F64.lt (years d.start.toDate) (years m.start.toDate) ∧
+    ∀ x ∈ ds, ¬ F64.lt (years x.start.toDate) (years m.start.toDate) := by
+  induction ds generalizing d with
+  | nil => simp [F64.lt]
+  | cons a ds ih =>
+    simp only [List.foldl_cons]
+    by_cases h : F64.lt (years a.start.toDate) (years d.start.toDate)
+    · rw [if_pos h]
+      obtain ⟨h1, h2, h3⟩ := ih a
+      refine ⟨?_, ?_, ?_⟩
+      · rcases h1 with e | e
+        · right; rw [e]; simp
+        · right; simp [e]
+      · -- d is above a, a is not below the result: d is not below the result
+        intro hd
+        rw [lt_iff_toQ] at h hd h2
+        exact h2 (lt_trans h hd)
+      · intro x hx
+        rcases List.mem_cons.mp hx with e | e
+        · rw [e]; exact h2
+        · exact h3 x e
+    · rw [if_neg h]
+      obtain ⟨h1, h2, h3⟩ := ih d
+      refine ⟨?_, h2, ?_⟩
+      · rcases h1 with e | e
+        · left; exact e
+        · right; simp [e]
+      · intro x hx
+        rcases List.mem_cons.mp hx with e | e
+        · rw [e]
+          intro ha
+          -- a below the result, the result not above d ... the result is d or later; use h
+          rw [lt_iff_toQ] at h ha h2
+          exact h (lt_of_lt_of_le ha (not_lt.mp h2))
+        · exact h3 x e
+
+/-- **`Minimum()` on the float64 values**: the date selected is one of the list and no date of
+    the list starts strictly earlier on the float64 Years scale (ties keep the earlier entry — the
+    last bit decides, as in Go) -/
+theorem minimumRangeF_spec (ds : List Gedcom.DateRange) (m : Gedcom.DateRange)
+    (h : minimumRangeF ds = some m) :
+    m ∈ ds ∧ ∀ x ∈ ds, ¬ F64.lt (years x.start.toDate) (years m.start.toDate) := by
+  cases ds with
+  | nil => simp [minimumRangeF] at h
+  | cons d ds =>
+    simp only [minimumRangeF, Option.some.injEq] at h
+    obtain ⟨h1, h2, h3⟩ := minimumF_fold ds d
+    rw [h] at h1 h2 h3
+    refine ⟨?_, ?_⟩
+    · rcases h1 with e | e
+      · rw [e]; simp
+      · simp [e]
+    · intro x hx
+      rcases List.mem_cons.mp hx with e | e
+      · rw [e]; exact h2
+      · exact h3 x e
+
 /-! ### `WeightedSimilarity` on the float64 values -/
 
 /-- **Bounds**: the float64 weighted similarity never exceeds one (the source cuts the sum) -/
